@@ -113,6 +113,65 @@ func curatedWorlds() []wWorld {
 		genLocs(rand.New(rand.NewSource(7)), &fl)
 		out = append(out, wWorld{Files: []wFile{fl}, Targets: []string{"wide.proto"}})
 	}
+	// a nesting chain deeper than any plausible fixed bound, referenced from both ends
+	{
+		fl := file("deep.proto", "deep", "proto3")
+		const depth = 40
+		fqn := ".deep.D0"
+		for k := 1; k < depth; k++ {
+			fqn += fmt.Sprintf(".D%d", k)
+		}
+		cur := wMsg{Head: mh(fmt.Sprintf("D%d", depth-1), f("top", 1, 1, 11, ".deep.D0"), f("leaf", 2, 1, 5, "")), Nested: []wMsg{}}
+		cur.Head.Enums = []wEnum{{Name: "Bottom", Values: []wEnumVal{{"BOTTOM_ZERO", 0}, {"BOTTOM_NEG", -4}, {"BOTTOM_TWO", 2}}}}
+		for k := depth - 2; k >= 0; k-- {
+			cur = wMsg{Head: mh(fmt.Sprintf("D%d", k), f("down", 1, 1, 11, fqn)), Nested: []wMsg{cur}}
+		}
+		fl.Msgs = []wMsg{cur, {Head: mh("User", f("deepest", 1, 3, 11, fqn), f("kind", 2, 1, 14, fqn+".Bottom")), Nested: []wMsg{}}}
+		genLocs(rand.New(rand.NewSource(11)), &fl)
+		out = append(out, wWorld{Files: []wFile{fl}, Targets: []string{"deep.proto"}, Bidi: true})
+	}
+	// more than 64 imports, public ones among the late ones; more than 64 nested types with map
+	// entries among the late ones (a bit set indexed by position must not be a single word)
+	{
+		var fs []wFile
+		um := file("umbrella.proto", "um", "proto3")
+		for k := 0; k < 70; k++ {
+			lf := file(fmt.Sprintf("um_leaf%d.proto", k), fmt.Sprintf("um.l%d", k), "proto3")
+			lf.Msgs = []wMsg{{Head: mh("L"), Nested: []wMsg{}}}
+			fs = append(fs, lf)
+			um.Deps = append(um.Deps, lf.Name)
+		}
+		um.PublicDeps = []int{3, 64, 66, 69}
+		um.Msgs = []wMsg{{Head: mh("U", f("a", 1, 1, 11, ".um.l0.L"), f("b", 2, 1, 11, ".um.l65.L"), f("c", 3, 1, 11, ".um.l69.L")), Nested: []wMsg{}}}
+		user := file("um_user.proto", "um.user", "proto3")
+		user.Deps = []string{"umbrella.proto"}
+		user.Msgs = []wMsg{{Head: mh("V", f("via", 1, 1, 11, ".um.l66.L"), f("u", 2, 1, 11, ".um.U")), Nested: []wMsg{}}}
+		fs = append(fs, um, user)
+		out = append(out, wWorld{Files: fs, Targets: []string{"umbrella.proto", "um_user.proto"}, Bidi: true})
+
+		for _, seed := range []int64{3, 4} {
+			fl := file("many.proto", "many", "proto3")
+			many := wMsg{Head: mh("Many"), Nested: []wMsg{}}
+			num := 0
+			for k := 0; k < 72; k++ {
+				num++
+				if k == 10 || k == 64 || k == 67 || k == 71 {
+					fn := fmt.Sprintf("m%d", k)
+					en := camelOfField(fn)
+					many.Nested = append(many.Nested, wMsg{Head: wMsgHead{Name: en, MapEntry: true, Fields: []wField{f("key", 1, 1, 9, ""), f("value", 2, 1, 5, "")}, Enums: []wEnum{}, Oneofs: []string{}, Exts: []wField{}}, Nested: []wMsg{}})
+					many.Head.Fields = append(many.Head.Fields, f(fn, num, 3, 11, ".many.Many."+en))
+					continue
+				}
+				n := wMsg{Head: mh(fmt.Sprintf("N%d", k), f("v", 1, 1, 5, "")), Nested: []wMsg{}}
+				n.Head.Enums = []wEnum{{Name: "E", Values: []wEnumVal{{fmt.Sprintf("N%d_ZERO", k), 0}}}}
+				many.Nested = append(many.Nested, n)
+				many.Head.Fields = append(many.Head.Fields, f(fmt.Sprintf("n%d", k), num, 1, 11, fmt.Sprintf(".many.Many.N%d", k)))
+			}
+			fl.Msgs = []wMsg{many}
+			genLocs(rand.New(rand.NewSource(seed)), &fl)
+			out = append(out, wWorld{Files: []wFile{fl}, Targets: []string{"many.proto"}})
+		}
+	}
 	return append(out, hubWorlds()...)
 }
 
